@@ -7,9 +7,12 @@ import (
 
 	"verifh/nd"
 
+	"github.com/go-i2p/common/data"
 	"github.com/go-i2p/common/destination"
 	"github.com/go-i2p/common/encrypted_leaseset"
+	"github.com/go-i2p/common/lease"
 	"github.com/go-i2p/common/lease_set2"
+	"github.com/go-i2p/common/offline_signature"
 	"github.com/go-i2p/crypto/kdf"
 )
 
@@ -18,13 +21,36 @@ import (
 //verif:props C16
 //verif:witness decrypted wrong-key tampered
 func H_C16_EncryptDecrypt() {
-	shapes := ls2Shapes()
-	s := shapes[[]int{0, 1, 3}[nd.IntRange(0, 2)]]
-	in, total := s.build()
-	ls, _, err := lease_set2.ReadLeaseSet2(in)
-	nd.Assume(err == nil)
-	want, _ := ls.Bytes()
-	nd.Assume(len(want) == total)
+	var ls lease_set2.LeaseSet2
+	if nd.Bool() {
+		// a LeaseSet2 obtained from the wire parser (plain, or with an Ed25519 transient key)
+		shapes := ls2Shapes()
+		s := shapes[[]int{0, 3}[nd.IntRange(0, 1)]]
+		in, total := s.build()
+		v, _, err := lease_set2.ReadLeaseSet2(in)
+		nd.Assume(err == nil)
+		b, _ := v.Bytes()
+		nd.Assume(len(b) == total)
+		ls = v
+	} else {
+		// a LeaseSet2 built by the constructor (independent of the parser) with an offline block whose transient
+		// key type has a 64-, 96- or 40-byte signature; unsigned (nil key: placeholder signature of that size)
+		_, dpub := nd.Ed25519Key()
+		dest, ok := destWithSigType(7, dpub)
+		nd.Assume(ok)
+		tt := []int{7, 2, 0}[nd.IntRange(0, 2)]
+		tp, _ := sigLens(tt)
+		o, oerr := offline_signature.NewOfflineSignature(nd.Uint32(), uint16(tt), nd.Bytes(tp), nd.Bytes(64), 7)
+		nd.Assume(oerr == nil)
+		var l lease.Lease2
+		copy(l[:], nd.Bytes(40))
+		v, cerr := lease_set2.NewLeaseSet2(dest, nd.Uint32(), nd.Uint16(), 1, &o, data.Mapping{},
+			[]lease_set2.EncryptionKey{{KeyType: 4, KeyLen: 32, KeyData: nd.Bytes(32)}}, []lease.Lease2{l}, nil)
+		nd.Assume(cerr == nil)
+		ls = v
+	}
+	want, werr := ls.Bytes()
+	nd.Assume(werr == nil)
 	priv, pub := nd.X25519Key()
 	var cookie [32]byte
 	copy(cookie[:], nd.Bytes(32))
